@@ -1,1 +1,253 @@
-import ElvProofs.C07.Assoc6
+/-
+C07 helper lemmas, part 13: `node.without` — unfolding lemmas, `pack`, and the
+specification `WPost`.
+-/
+import ElvProofs.C07.Contents
+namespace C07
+open Go Gen.C07Bits
+
+variable {K V : Type} {eq : K → K → Bool} {hashf : K → UInt32}
+
+/-- what the parent does with the result of `child.without` -/
+def stepOf : Res (WRes K V × Bool) → Res (Step K V)
+  | .ok (.same, _) => .ok .keep
+  | .ok (.emptyPtr, _) => .ok .drop
+  | .ok (.fresh c, del) => .ok (.replace c del)
+  | .exc e => .exc e
+  | .panic w => .panic w
+
+theorem withoutAt_eq (eq : K → K → Bool) (es : List (Entry K V)) (i : Nat) (shift hash : UInt32) (k : K) :
+    withoutAt eq es i shift hash k =
+      match es[i]? with
+      | none => .panic "index out of range"
+      | some (.kv k0 _) => .ok (if eq k0 k then .drop else .keep)
+      | some (.sub child) => stepOf (child.without eq (nextShift shift) hash k) := by
+  induction es generalizing i with
+  | nil => simp [withoutAt]
+  | cons e es ih =>
+    cases i with
+    | zero =>
+      cases e with
+      | kv k0 v0 => simp [withoutAt]; split <;> rfl
+      | sub child =>
+        simp only [withoutAt, List.getElem?_cons_zero, stepOf]
+        split <;> simp_all
+    | succ i => cases e <;> simp [withoutAt, ih]
+
+theorem withoutChild_eq (eq : K → K → Bool) (cs : List (Option (Node K V))) (i : Nat)
+    (shift hash : UInt32) (k : K) :
+    withoutChild eq cs i shift hash k =
+      match cs[i]? with
+      | none => outside "arrayNode.children shorter than 32"
+      | some none => .ok .keep
+      | some (some child) => stepOf (child.without eq (nextShift shift) hash k) := by
+  induction cs generalizing i with
+  | nil => simp [withoutChild]
+  | cons c cs ih =>
+    cases i with
+    | zero =>
+      cases c with
+      | none => simp [withoutChild]
+      | some child =>
+        simp only [withoutChild, List.getElem?_cons_zero, stepOf]
+        split <;> simp_all
+    | succ i => cases c <;> simp [withoutChild, ih]
+
+/-! ### specification -/
+
+/-- the node a `without` result denotes (`none` = the global empty node) -/
+def WRes.node (n : Node K V) : WRes K V → Option (Node K V)
+  | .same => some n
+  | .emptyPtr => none
+  | .fresh m => some m
+
+def findOpt (eq : K → K → Bool) (d : Nat) (o : Option (Node K V)) (hash : UInt32) (k : K) : Res (Option V) :=
+  match o with
+  | none => .ok none
+  | some m => m.find eq (shiftOf d) hash k
+
+def alOpt : Option (Node K V) → List (K × V)
+  | none => []
+  | some m => m.toAList
+
+/-- what `n.without(shift, hash(k), k)` returning `(r, deleted)` guarantees -/
+structure WPost (eq : K → K → Bool) (hashf : K → UInt32) (d : Nat) (n : Node K V) (k : K)
+    (r : WRes K V) (deleted : Bool) : Prop where
+  same : (r = .same) ↔ deleted = false
+  wf : ∀ m, r = .fresh m → WF eq hashf d m ∧ m.toAList ≠ []
+  find : ∀ k' old, n.find eq (shiftOf d) (hashf k') k' = .ok old →
+    findOpt eq d (r.node n) (hashf k') k' = .ok (if eq k k' then none else old)
+  size : (alOpt (r.node n)).length + (if deleted then 1 else 0) = n.toAList.length
+  keys : ∀ e ∈ alOpt (r.node n), e ∈ n.toAList
+  isDel : ∀ old, n.find eq (shiftOf d) (hashf k) k = .ok old → deleted = old.isSome
+
+/-- keys that are `eq` are looked up alike -/
+theorem find_none_congr (L : Lawful eq hashf) {d : Nat} {n : Node K V} (h : WF eq hashf d n)
+    {k k' : K} (he : eq k k' = true) (hk : n.find eq (shiftOf d) (hashf k) k = .ok none)
+    {old : Option V} (hold : n.find eq (shiftOf d) (hashf k') k' = .ok old) : old = none := by
+  cases old with
+  | none => rfl
+  | some v =>
+    obtain ⟨k0, h1, h2⟩ := (find_iff_mem L h k' v).mp hold
+    have := find_complete L h k0 k v h2 (L.trans _ _ _ h1 (L.symm _ _ he))
+    rw [hk] at this; cases this
+
+/-- nothing to delete: the receiver is returned -/
+theorem wpost_same (L : Lawful eq hashf) {d : Nat} {n : Node K V} (h : WF eq hashf d n) (k : K)
+    (hk : n.find eq (shiftOf d) (hashf k) k = .ok none) : WPost eq hashf d n k .same false := by
+  refine ⟨by simp, (by intro m hm; cases hm), ?_, by simp [WRes.node, alOpt], by simp [WRes.node, alOpt], ?_⟩
+  · intro k' old hold
+    simp only [WRes.node, findOpt]
+    cases he : eq k k'
+    · simpa using hold
+    · rw [hold, find_none_congr L h he hk hold]; rfl
+  · intro old hold
+    rw [hk] at hold; cases hold; rfl
+
+theorem exists_other_bit {bm : UInt32} {c : Nat} (hc : c < 32) (hne : bm ≠ bitU c) (hb : hasBit bm c = true) :
+    ∃ i, i < 32 ∧ i ≠ c ∧ hasBit bm i = true := by
+  apply Classical.byContradiction
+  intro hno
+  apply hne
+  apply UInt32.toNat_inj.mp
+  rw [bitU_toNat c hc]
+  apply Nat.eq_of_testBit_eq
+  intro i
+  rw [Nat.testBit_two_pow]
+  by_cases hi : c = i
+  · subst hi; simpa [hasBit] using hb
+  · have : hasBit bm i = false := by
+      cases h : hasBit bm i
+      · rfl
+      · exfalso
+        apply hno
+        refine ⟨i, ?_, fun e => hi e.symm, h⟩
+        rcases Nat.lt_or_ge i 32 with h32 | h32
+        · exact h32
+        · rw [hasBit_ge bm i h32] at h; cases h
+    simpa [hasBit, hi] using this
+
+theorem toAList_ne_nil_of_entries {d : Nat} {bm : UInt32} {es : List (Entry K V)}
+    (hwf : WF eq hashf d (.bitmap bm es)) (hne : es ≠ []) : (Node.bitmap bm es).toAList ≠ [] := by
+  cases hwf with
+  | bitmap hd hlen hkv hsub hkeys =>
+  obtain ⟨x, hx⟩ := List.exists_mem_of_ne_nil es hne
+  obtain ⟨c, hc, hs⟩ := (mem_iff_slot hlen x).mp hx
+  rw [toAList_bitmap]
+  intro h
+  have := List.flatMap_eq_nil_iff.mp h x hx
+  cases x with
+  | kv k v => simp [entryAL] at this
+  | sub n => exact (hkeys c n hc hs).1 (by simpa [entryAL] using this)
+
+/-- bitmap node: the entry of chunk `c` disappears -/
+theorem wpost_bitmap_drop (L : Lawful eq hashf) {d : Nat} {bm : UInt32} {es : List (Entry K V)} {k : K}
+    (hwf : WF eq hashf d (.bitmap bm es)) (hb : hasBit bm (chunkN d (hashf k)) = true)
+    (x : Entry K V) (hx : slot bm es (chunkN d (hashf k)) = some x)
+    (hfind : ∀ k' old, chunkN d (hashf k') = chunkN d (hashf k) →
+      (match x with
+        | .kv k0 v0 => Res.ok (if eq k0 k' then some v0 else none)
+        | .sub n => n.find eq (shiftOf (d + 1)) (hashf k') k') = .ok old →
+      (if eq k k' then none else old) = none)
+    (hsize : (entryAL x).length = 1)
+    (hisdel : ∀ old,
+      (match x with
+        | .kv k0 v0 => Res.ok (if eq k0 k then some v0 else none)
+        | .sub n => n.find eq (shiftOf (d + 1)) (hashf k) k) = .ok old → old.isSome = true) :
+    ∃ r, bitmapWithoutEntry bm es (bitU (chunkN d (hashf k))) (rank bm (chunkN d (hashf k))) = .ok r ∧
+      WPost eq hashf d (.bitmap bm es) k r true := by
+  have hwf' := hwf
+  cases hwf with
+  | bitmap hd hlen hkv hsub hkeys =>
+  have hd7 : d ≤ 7 := by omega
+  have hc := chunkN_lt d (hashf k)
+  have hr := rank_lt_len hlen hc hb
+  have hxi : es[rank bm (chunkN d (hashf k))] = x := by
+    rw [slot_of_hasBit hb, List.getElem?_eq_getElem hr] at hx
+    exact Option.some.inj hx
+  have hsz := flatMap_split entryAL es _ hr
+  rw [hxi] at hsz
+  have hfindn : ∀ k' old, (Node.bitmap bm es).find eq (shiftOf d) (hashf k') k' = .ok old →
+      chunkN d (hashf k') = chunkN d (hashf k) → (if eq k k' then none else old) = none := by
+    intro k' old hold h
+    rw [find_bitmap eq d hd7 _ _ hlen, h, hx] at hold
+    exact hfind k' old h (by cases x <;> exact hold)
+  have hisd : ∀ old, (Node.bitmap bm es).find eq (shiftOf d) (hashf k) k = .ok old → true = old.isSome := by
+    intro old hold
+    rw [find_bitmap eq d hd7 _ _ hlen, hx] at hold
+    exact (hisdel old (by cases x <;> exact hold)).symm
+  unfold bitmapWithoutEntry
+  by_cases hbe : (bm == bitU (chunkN d (hashf k))) = true
+  · have hbm : bm = bitU (chunkN d (hashf k)) := by simpa using hbe
+    have hl1 : es.length = 1 := by rw [hlen, hbm, rank_bitU_32 _ hc]
+    have hes : es = [x] := by
+      obtain ⟨y, hy⟩ := List.length_eq_one_iff.mp hl1
+      subst hy
+      simp at hxi
+      rw [hxi]
+    refine ⟨.emptyPtr, by simp [hbe], ⟨by simp, (by intro m hm; cases hm), ?_, ?_, by simp [WRes.node, alOpt], hisd⟩⟩
+    · intro k' old hold
+      simp only [WRes.node, findOpt]
+      by_cases h : chunkN d (hashf k') = chunkN d (hashf k)
+      · rw [hfindn k' old hold h]
+      · have hne := not_eq_of_chunk_ne L (fun e => h e.symm)
+        rw [find_bitmap eq d hd7 _ _ hlen, hbm, hes, slot_single _ hc, if_neg h] at hold
+        cases hold
+        simp [hne]
+    · simp only [WRes.node, alOpt, toAList_bitmap, hes]
+      simp [hsize]
+  · simp only [hbe, Bool.false_eq_true, if_false, withoutEntry, hr, if_true, ok_bind, pure_eq_ok]
+    have hbm : bm ≠ bitU (chunkN d (hashf k)) := by simpa using hbe
+    have hlen' : (es.eraseIdx (rank bm (chunkN d (hashf k)))).length = rank (bm ^^^ bitU (chunkN d (hashf k))) 32 := by
+      have := rank32_xor hc hb
+      rw [List.length_eraseIdx_of_lt hr]; omega
+    have hslot := fun c' => slot_erase (es := es) hc hb c'
+    have hwfn : WF eq hashf d (.bitmap (bm ^^^ bitU (chunkN d (hashf k))) (es.eraseIdx (rank bm (chunkN d (hashf k))))) := by
+      refine WF.bitmap hd hlen' ?_ ?_ ?_
+      · intro c k0 v0 hc0 hs
+        rw [hslot] at hs; split at hs
+        · cases hs
+        · exact hkv c k0 v0 hc0 hs
+      · intro c n hc0 hs
+        rw [hslot] at hs; split at hs
+        · cases hs
+        · exact hsub c n hc0 hs
+      · intro c n hc0 hs
+        rw [hslot] at hs; split at hs
+        · cases hs
+        · exact hkeys c n hc0 hs
+    have hne : es.eraseIdx (rank bm (chunkN d (hashf k))) ≠ [] := by
+      obtain ⟨i, hi, hic, hbi⟩ := exists_other_bit hc hbm hb
+      have : hasBit (bm ^^^ bitU (chunkN d (hashf k))) i = true := by
+        rw [hasBit_xor_bitU _ _ _ hc, hbi]
+        have : decide (chunkN d (hashf k) = i) = false := by simp; exact fun e => hic e.symm
+        simp [this]
+      have := rank_lt_of_hasBit _ hi this
+      intro e
+      rw [e] at hlen'
+      simp at hlen'
+      omega
+    refine ⟨_, rfl, ⟨by simp, ?_, ?_, ?_, ?_, hisd⟩⟩
+    · intro m hm
+      cases hm
+      exact ⟨hwfn, toAList_ne_nil_of_entries hwfn hne⟩
+    · intro k' old hold
+      simp only [WRes.node, findOpt]
+      rw [find_bitmap eq d hd7 _ _ hlen', hslot]
+      by_cases h : chunkN d (hashf k') = chunkN d (hashf k)
+      · rw [if_pos h, hfindn k' old hold h]
+      · have hne' := not_eq_of_chunk_ne L (fun e => h e.symm)
+        rw [if_neg h, hne']
+        rw [find_bitmap eq d hd7 _ _ hlen] at hold
+        simpa using hold
+    · simp only [WRes.node, alOpt, toAList_bitmap, if_true]
+      rw [hsz, List.eraseIdx_eq_take_drop_succ, List.flatMap_append]
+      simp only [List.length_append, hsize]
+      omega
+    · intro e he
+      simp only [WRes.node, alOpt, toAList_bitmap] at he ⊢
+      rw [List.mem_flatMap] at he ⊢
+      obtain ⟨a, ha, hea⟩ := he
+      exact ⟨a, List.mem_of_mem_eraseIdx ha, hea⟩
+
+end C07
